@@ -148,10 +148,21 @@ def build_go(name, tags="verif", overlay=True):
     return rc == 0, out, out_bin
 
 
+def _big_stack():
+    # extracted list functions are not tail-recursive: multi-megabyte strings need a deep native stack
+    import resource
+    try:
+        soft, hard = resource.getrlimit(resource.RLIMIT_STACK)
+        resource.setrlimit(resource.RLIMIT_STACK, (hard, hard))
+    except (ValueError, OSError):
+        pass
+
+
 def run_lines(cmd, lines, timeout=1800, env=None):
     """Feed one case per line, get one result line per case."""
     data = ("\n".join(lines) + "\n").encode()
-    p = subprocess.run(cmd, input=data, stdout=subprocess.PIPE, stderr=subprocess.PIPE, timeout=timeout, env=env)
+    p = subprocess.run(cmd, input=data, stdout=subprocess.PIPE, stderr=subprocess.PIPE, timeout=timeout, env=env,
+                       preexec_fn=_big_stack)
     out = p.stdout.decode("utf-8", "replace").split("\n")
     if out and out[-1] == "":
         out.pop()
